@@ -152,6 +152,13 @@ ENext ==
 ESpec == Init /\ [][ENext]_vars
 EdgeView == hist
 
+(* Edges_VK_full.cfg: dense block numbers, only the histories without a block        *)
+(* that has no version between their oldest and newest version - the ones        *)
+(* that fill the window (W + 1 versions), which the sparse block set of          *)
+(* Edges_VK_10 cannot produce.  Every set / unset / rollback / is_old on a full  *)
+(* history is then a transition (a removal as the W+2nd version among them).     *)
+DenseHist == (MaxKey(hist) - Min(Keys(hist)) + 1) = Cardinality(Keys(hist))
+
 Unpruned(h, a) ==
   IF a.op = "write" /\ ~a.panic THEN (IF Latest(h) = a.v THEN h ELSE SemWrite(h, a.b, a.v))
   ELSE IF a.op = "reorg" /\ ~a.panic THEN [k \in {k \in Keys(h) : k <= a.b} |-> h[k]]
